@@ -8,6 +8,7 @@ import (
 	"math/big"
 	"os"
 	"path/filepath"
+	"regexp"
 	"sort"
 	"strings"
 
@@ -141,6 +142,72 @@ func c19Split(c *Ctx, asm, pure *load.Program) {
 		{"arm64": true, "linux": true, "gc": true}, {"arm64": true, "purego": true, "linux": true, "gc": true},
 		{"386": true, "linux": true, "gc": true}, {"amd64": true, "windows": true, "gc": true}, {"amd64": true, "darwin": true, "gc": true, "purego": true},
 	}
+	// private helpers of a configuration: an unexported function declared in a constrained file, never used as a value,
+	// whose every call site lies in a function declared in a constrained file, is part of the configuration-dependent
+	// routines that call it (their equivalence, rule C19-2, is decided with the helper inlined) and is not itself part of
+	// the configuration-dependent surface
+	constrainedRel := map[string]bool{}
+	for _, f := range constrained {
+		constrainedRel[f.rel] = true
+	}
+	private := map[string]bool{}
+	for _, prog := range []*load.Program{asm, pure} {
+		inConstrained := func(fn *ssa.Function) bool {
+			for fn != nil && fn.Parent() != nil {
+				fn = fn.Parent()
+			}
+			if fn == nil || !fn.Pos().IsValid() {
+				return false
+			}
+			rel, err := filepath.Rel(prog.Dir, prog.SSA.Fset.Position(fn.Pos()).Filename)
+			return err == nil && constrainedRel[rel]
+		}
+		cand := map[*ssa.Function]bool{}
+		funcs := ModuleFuncs(prog)
+		for _, fn := range funcs {
+			if fn.Parent() == nil && inConstrained(fn) && !token.IsExported(fn.Name()) && !strings.HasPrefix(fn.Name(), "lookup") && fn.Blocks != nil {
+				cand[fn] = true
+			}
+		}
+		for changed := true; changed; {
+			changed = false
+			for _, caller := range funcs {
+				for _, b := range caller.Blocks {
+					for _, in := range b.Instrs {
+						var callee *ssa.Function
+						if call, ok := in.(ssa.CallInstruction); ok {
+							callee = call.Common().StaticCallee()
+						}
+						for _, op := range in.Operands(nil) {
+							fn, ok := (*op).(*ssa.Function)
+							if !ok || !cand[fn] {
+								continue
+							}
+							asCallee := callee == fn && (*op) == in.(ssa.CallInstruction).Common().Value
+							if !asCallee || !(inConstrained(caller)) {
+								delete(cand, fn)
+								changed = true
+							}
+						}
+					}
+				}
+			}
+		}
+		for fn := range cand {
+			private[fn.Name()] = true
+		}
+	}
+	declName := regexp.MustCompile(`^func (\([^)]*\) )?(\w+)\(`)
+	dropPrivate := func(decls []string) []string {
+		var out []string
+		for _, d := range decls {
+			if m := declName.FindStringSubmatch(d); m != nil && private[m[2]] {
+				continue
+			}
+			out = append(out, d)
+		}
+		return out
+	}
 	// group constrained files by directory and require: per tag set, the Go declarations are the same
 	byDir := map[string][]srcFile{}
 	for _, f := range constrained {
@@ -163,7 +230,7 @@ func c19Split(c *Ctx, asm, pure *load.Program) {
 					continue
 				}
 				d, bodyless := goDecls(filepath.Join(asm.Dir, f.rel))
-				decls = append(decls, d...)
+				decls = append(decls, dropPrivate(d)...)
 				if bodyless {
 					stubFiles++
 				}
@@ -216,7 +283,7 @@ func c19Split(c *Ctx, asm, pure *load.Program) {
 	}
 	c.R.Decide(len(bad) == 0, "C19-1", "no-runtime-dispatch", "", "no function consults CPU features or GOARCH at run time", strings.Join(bad, "; "))
 	// the set of functions (by name and signature) of the curve package is the same in both configurations
-	fa, fp := funcSigs(asm, models.Mod), funcSigs(pure, models.Mod)
+	fa, fp := funcSigs(asm, models.Mod, private), funcSigs(pure, models.Mod, private)
 	c.R.Decide(strings.Join(fa, "\n") == strings.Join(fp, "\n"), "C19-1", "same-declarations", "", fmt.Sprintf("both configurations declare the same %d functions in the curve package", len(fa)), "function sets differ between the assembly and purego configurations")
 	c.R.Floor("C19-1", 5)
 }
@@ -230,10 +297,13 @@ func keysOf(m map[string]bool) []string {
 	return k
 }
 
-func funcSigs(prog *load.Program, pkg string) []string {
+func funcSigs(prog *load.Program, pkg string, private map[string]bool) []string {
 	var out []string
 	for _, fn := range ModuleFuncs(prog) {
 		if fn.Pkg != nil && fn.Pkg.Pkg.Path() == pkg && fn.Parent() == nil {
+			if private[fn.Name()] && !token.IsExported(fn.Name()) {
+				continue
+			}
 			out = append(out, fn.String()+" "+fn.Signature.String())
 		}
 	}
@@ -578,7 +648,7 @@ func c19CallSites(c *Ctx, prog *load.Program) {
 					continue
 				}
 				n++
-				idx := call.Common().Args[2]
+				idx := call.Common().Args[len(call.Common().Args)-1] // the window is the last operand
 				// the equivalence of the two lookups is established for the indices 0..15 (rule C19-2); beyond that the
 				// 32-bit lane comparison of the assembly and the 64-bit comparison of the portable routine may differ.
 				// A small range analysis bounds the index at every call site.
@@ -807,6 +877,28 @@ func ssaUpperBound(prog *load.Program, v ssa.Value, depth int) (uint64, bool) {
 						tighten(m, true)
 					}
 				}
+			}
+		}
+	case *ssa.Call:
+		// the result of a module function with a single result: the largest value any of its returns can yield
+		if callee := x.Call.StaticCallee(); callee != nil && callee.Blocks != nil && callee.Pkg != nil && load.IsModulePkg(callee.Pkg.Pkg.Path()) && callee.Signature.Results().Len() == 1 {
+			var m uint64
+			all, rets := true, 0
+			for _, b := range callee.Blocks {
+				for _, in := range b.Instrs {
+					if ret, isRet := in.(*ssa.Return); isRet && len(ret.Results) == 1 {
+						rets++
+						bd, ok := ssaUpperBound(prog, ret.Results[0], depth+1)
+						if !ok {
+							all = false
+						} else if bd > m {
+							m = bd
+						}
+					}
+				}
+			}
+			if all && rets > 0 {
+				tighten(m, true)
 			}
 		}
 	case *ssa.Parameter:
